@@ -555,7 +555,7 @@ func legC06Compat(c *Ctx) {
 	for _, w := range c06Corpus {
 		run(w.pat, false, []string{w.in}, "corpus")
 	}
-	np := c.N(650, 12000)
+	np := c.N(1500, 20000)
 	for i := 0; i < np && !st.abort; i++ {
 		pat, hasB := c06Pattern(c.Rng)
 		ins := []string{c06Input(c.Rng), c06Input(c.Rng), c06Input(c.Rng), c06Input(c.Rng)}
